@@ -2,7 +2,7 @@
 ; debug-info enum fields spelled with numbers (LLVM accepts both forms), with and without a keyword for the number
 !llvm.dbg.cu = !{!0}
 !llvm.module.flags = !{!3}
-!keep = !{!4, !5, !6, !8, !9, !10}
+!keep = !{!4, !5, !6, !8, !9, !10, !14}
 
 !0 = distinct !DICompileUnit(language: 12, file: !1, emissionKind: 1, macros: !12, nameTableKind: 1)
 !1 = !DIFile(filename: "a.c", directory: "/")
@@ -16,3 +16,4 @@
 !10 = distinct !DISubprogram(name: "f", scope: !1, file: !1, type: !6, virtuality: 1, virtualIndex: 0, spFlags: 8, unit: !0)
 !12 = !{!13}
 !13 = !DIMacro(type: 1, line: 1, name: "A", value: "1")
+!14 = !DICompositeType(tag: DW_TAG_structure_type, name: "t", file: !1, size: 32, runtimeLang: 40, elements: !7)
